@@ -1,6 +1,7 @@
 import EaselModel.Core.Proto
 import EaselModel.Stats.Histogram
 import EaselModel.Stats.Fit
+import EaselModel.Stats.FitCG
 /-! Line-protocol driver for the C11 model (histogram + maximum-likelihood fits) over `Float`. -/
 open EaselModel EaselModel.Proto EaselModel.Stats
 
@@ -155,7 +156,9 @@ def step (s : S) (line : String) : S × String :=
     let a := (argF ws "a").getD 0.0
     let b := (argF ws "b").getD 0.0
     let z := (argInt? ws "z").getD 0
-    (s, match runFit kind xs a b z with | some r => fitOut r | none => "unmodelled")
+    (s, match runFit kind xs a b z with
+        | some r => fitOut r
+        | none => match runFitCG kind xs a with | some r => fitOut r | none => "unmodelled")
   | op :: _ =>
     if op.startsWith "h" then
       match s.h with
